@@ -29,6 +29,7 @@ def step (line : String) : String :=
   | "origints" :: args => handleStructure "origints" args
   | "origintsu" :: args => handleStructure "origintsu" args
   | "usets" :: args => handleStructure "usets" args
+  | "usesym" :: args => handleStructure "usesym" args
   | "rxry" :: args => handleStructure "rxry" args
   | "rxryobs" :: args => handleStructure "rxryobs" args
   | "switch" :: args => handleStructure "switch" args
